@@ -647,8 +647,68 @@ func (fr *Frame) alloc(st *State, pc T, t types.Type, hint string, zero bool) T 
 	fr.allocNested(st, t, a, 0)
 	if zero {
 		vc.storeAddr(st, &Addr{Kind: aCell, Typ: t, Ref: a}, vc.zeroVal(t))
+		fr.zeroSpecial(st, t, a, 0)
 	}
 	return a
+}
+
+// zeroSpecial completes the zero value of a fresh object for state that does not live in ordinary field classes:
+// sync/atomic values (modelled as plain cells keyed by the address of the atomic, externals.go) start at zero / nil,
+// and ghost fields of a fresh object start at their zero value (a ghost finite set: empty — nothing can have been
+// inserted for an object that did not exist, A-GHOST).
+func (fr *Frame) zeroSpecial(st *State, t types.Type, ref T, depth int) {
+	vc := fr.vc
+	if depth > 4 {
+		return
+	}
+	if n, ok := t.(*types.Named); ok && n.Obj().Pkg() != nil {
+		if n.Obj().Pkg().Path() == "sync/atomic" {
+			if n.Obj().Name() == "Value" {
+				vc.storeAddr(st, &Addr{Kind: aCell, Typ: emptyIface, Ref: ref}, vc.zeroVal(emptyIface))
+				return
+			}
+			for i := 0; i < n.NumMethods(); i++ {
+				if m := n.Method(i); m.Name() == "Load" {
+					elem := m.Type().(*types.Signature).Results().At(0).Type()
+					ct := types.NewNamed(types.NewTypeName(token.NoPos, nil, "atomic_"+vc.E.typeStr(elem), nil), elem.Underlying(), nil)
+					vc.storeAddr(st, &Addr{Kind: aCell, Typ: ct, Ref: ref}, Val{Typ: ct, Ts: vc.zeroLeaves(elem)})
+					return
+				}
+			}
+			return
+		}
+		prefix := keyPkgName(n.Obj().Pkg()) + "." + n.Obj().Name() + "."
+		for key, g := range vc.E.GhostFields {
+			if !strings.HasPrefix(key, prefix) {
+				continue
+			}
+			gt, err := vc.E.resolveType(keyPkgName(n.Obj().Pkg()), g.Type)
+			if err != nil {
+				continue
+			}
+			var zs []T
+			if gt == fsetType {
+				vc.fsetTheory()
+				zs = []T{"((as const " + SortFSet + ") false)"}
+			} else {
+				zs = vc.zeroLeaves(gt)
+			}
+			vc.storeGhostField(st, key, gt, ref, Val{Typ: gt, Ts: zs})
+		}
+	}
+	sty, ok := structOf(t)
+	if !ok {
+		return
+	}
+	for i := 0; i < sty.NumFields(); i++ {
+		f := sty.Field(i)
+		if f.Name() == "_" {
+			continue
+		}
+		if _, isStruct := f.Type().Underlying().(*types.Struct); isStruct {
+			fr.zeroSpecial(st, f.Type(), vc.subRef(t, f.Name(), ref), depth+1)
+		}
+	}
 }
 
 // structStoreHooks runs the store hooks of hooked fields when a whole struct value is stored.
@@ -974,7 +1034,9 @@ func (fr *Frame) execInstr(instr ssa.Instruction, st *State, pc T) T {
 		for _, b := range in.Bindings {
 			bs = append(bs, fr.get(b))
 		}
-		fr.set(in, Val{Typ: in.Type(), Ts: []T{vc.fresh("clo", SortRef)}, Clo: &Closure{Fn: in.Fn.(*ssa.Function), Bindings: bs}})
+		cref := vc.fresh("clo", SortRef)
+		vc.assume(pc, Not(Eq(cref, BV(0, 64)))) // a function literal is never nil
+		fr.set(in, Val{Typ: in.Type(), Ts: []T{cref}, Clo: &Closure{Fn: in.Fn.(*ssa.Function), Bindings: bs}})
 	case *ssa.Call:
 		res, npc := fr.doCall(&in.Call, in, st, pc, in.Pos())
 		fr.set(in, res)
